@@ -25,6 +25,20 @@ def c_dpeers(o):
                                             cstr('%s[%s]' % (p.get('name', ''), p.get('kind', ''))), cstr(p.get('ns', ''))) for p in o['peers']])
 
 
+def c_xsel(sel):
+    ml = clist(['(%s, %s)' % (cstr(k), cstr(v)) for k, v in sel.get('matchLabels', {}).items()])
+    me = clist(['(%s, %s, %s)' % (cstr(e['key']), cstr(e['op']), clist([cstr(v) for v in e.get('values') or []])) for e in sel.get('exprs') or []])
+    return '(mkXS %s %s)' % (ml, me)
+
+
+def c_xpeers(o):
+    """ExposedPeers() as the exposure-format model wants it"""
+    def item(e):
+        return '(mkXI %s %s %s %s)' % (cbool(e['cluster']), c_xsel(e['ns_sel']), c_xsel(e['pod_sel']), cstr(e['conn_str']))
+    return clist(['(mkXP %s %s %s %s %s)' % (cstr(x['peer']), cbool(x['ingress_protected']), cbool(x['egress_protected']),
+                                              clist([item(e) for e in x['ingress']]), clist([item(e) for e in x['egress']])) for x in o.get('exposure') or []])
+
+
 def main(tier):
     run = core.Run('C09', tier)
     run.cov['rule'] = ('random worlds (IP ranges, multi-protocol port sets, ANP/BANP) and world pairs; the real formatter output of list {txt,md,csv,json,dot} and diff {txt,md,csv,dot}; '
@@ -57,7 +71,7 @@ def main(tier):
                 metas.append((cid, W, W2, d1, d2))
             outs = h.run(cmds)
             per = len(LIST_FORMATS) + len(DIFF_FORMATS)
-            lcases, dcases, tcases, info = [], [], [], {}
+            lcases, dcases, tcases, xcases, xinfo, info = [], [], [], [], {}, {}
             for j, (cid, W, W2, d1, d2) in enumerate(metas):
                 lo = dict(zip(LIST_FORMATS, outs[per * j: per * j + len(LIST_FORMATS)]))
                 do = dict(zip(DIFF_FORMATS, outs[per * j + len(LIST_FORMATS): per * (j + 1)]))
@@ -143,6 +157,8 @@ def main(tier):
                 if xo['txt']['outcome'] != 'ok':
                     continue
                 payload = {'kind': 'exposure-format', 'world': W, 'manifests': [m for m, _ in gen.docs(W)]}
+                xcases.append('(mkXFmt %s %s %s %s)' % (cnat(cid), c_entries_full(xo['txt']), c_xpeers(xo['txt']), cstr(xo['txt'].get('out', ''))))
+                xinfo[cid] = (payload, xo)
                 want_rows, want_unprot = fmt.api_exposure_rows(xo['txt'])
                 if len(want_rows) >= 3:
                     run.nontrivial(['exposure', W])
@@ -178,11 +194,12 @@ def main(tier):
             run.cov['traces_validated_against_impl'] += len(metas)
             if k == 0 and metas:
                 run.sample({'list_txt': info[metas[0][0]][1]['txt'].get('out', '')[:600]})
-            text = ['From Coq Require Import List ZArith String.', 'From NP Require Import IntervalSet ConnSet World Build Connlist Diff Format RowInj.',
+            text = ['From Coq Require Import List ZArith String.', 'From NP Require Import IntervalSet ConnSet World Build Connlist Diff Format XFormat RowInj.',
                     'Import ListNotations.', 'Open Scope Z_scope.', 'Definition lcases : list fmt_case := [', ';\n'.join(lcases), '].',
                     'Definition dcases : list dfmt_case := [', ';\n'.join(dcases), '].',
+                    'Definition xcases : list xfmt_case := [', ';\n'.join(xcases), '].', 'Definition XM := Eval vm_compute in xfmt_mismatches xcases.',
                     'Definition tcases : list dot_case := [', ';\n'.join(tcases), '].', 'Definition TM := Eval vm_compute in dot_mismatches tcases.',
-                    'Definition MM := Eval vm_compute in fmt_mismatches lcases.', 'Definition DM := Eval vm_compute in dfmt_mismatches dcases.', 'Definition PM := Eval vm_compute in printable_mismatches lcases.', 'Print MM.', 'Print DM.', 'Print PM.', 'Print TM.']
+                    'Definition MM := Eval vm_compute in fmt_mismatches lcases.', 'Definition DM := Eval vm_compute in dfmt_mismatches dcases.', 'Definition PM := Eval vm_compute in printable_mismatches lcases.', 'Print MM.', 'Print DM.', 'Print PM.', 'Print TM.', 'Print XM.']
             rc, out, err = core.run_coq_text('\n'.join(text))
             if rc != 0:
                 raise RuntimeError('coqc on format cases failed: ' + err[-1500:])
@@ -191,6 +208,17 @@ def main(tier):
                 payload, lo, do = info[cid]
                 run.report(None, 'bytes-%s-%d' % (names[code], cid), dict(payload, format=names[code], output=lo[names[code]]['out']),
                            'list %s output differs byte-wise from the format model applied to the API result' % names[code])
+            xm = core.parse_pairs(out, 'XM')
+            if xm is None:
+                raise RuntimeError('no XM in coqc output')
+            for cid, code in xm[:4]:
+                payload, xo = xinfo[cid]
+                if code == 8:
+                    run.report(None, 'xties-%d' % cid, dict(payload, format='txt', output=xo['txt'].get('out'), exposure=xo['txt'].get('exposure')),
+                               'two lines of an exposure section name the same workload and the same other end: sort.Slice leaves their order unspecified')
+                else:
+                    run.report(None, 'xbytes-txt-%d' % cid, dict(payload, format='txt', output=xo['txt'].get('out'), exposure=xo['txt'].get('exposure')),
+                               'list --exposure txt output differs byte-wise from the exposure-format model applied to the API result')
             tm = core.parse_pairs(out, 'TM')
             if tm is None:
                 raise RuntimeError('no TM in coqc output')
